@@ -1,6 +1,7 @@
 package props
 
 import (
+	"strconv"
 	"go/constant"
 	"os"
 	"go/ast"
@@ -960,6 +961,13 @@ func atomsBetween(g *core.Graph, from, to *core.V, avoid []*core.V) []core.Atom 
 // zeroValueExpr returns a literal for the zero value of a variable declared
 // without initialiser (numbers 0, booleans false); nil for other types.
 func zeroValueExpr(info *types.Info, obj types.Object) ast.Expr {
+	switch obj.Type().Underlying().(type) {
+	case *types.Pointer, *types.Interface, *types.Slice, *types.Map:
+		id := &ast.Ident{Name: "nil"}
+		info.Uses[id] = types.Universe.Lookup("nil")
+		info.Types[id] = types.TypeAndValue{Type: obj.Type()}
+		return id
+	}
 	b, ok := obj.Type().Underlying().(*types.Basic)
 	if !ok {
 		return nil
@@ -994,4 +1002,62 @@ func sameBranch(g *core.Graph, a, b *core.V) bool {
 		}
 	}
 	return true
+}
+
+// expandStores replaces a store of a variable that holds an entry literal
+// chosen earlier (entry = &T{...} in one branch, entry = &T{...} in another;
+// xref[i] = entry) by one store per literal, located at the assignment of
+// the literal.  Stores of nil are dropped.
+func expandStores(g *core.Graph, stores []storeV) []storeV {
+	var out []storeV
+	for _, st := range stores {
+		if _, isID := ast.Unparen(st.Value).(*ast.Ident); !isID || st.Value == nil {
+			out = append(out, st)
+			continue
+		}
+		cs := valueCases(g, st.V, st.Value, 1)
+		if len(cs) == 1 && cs[0].V == st.V {
+			out = append(out, st)
+			continue
+		}
+		for _, vc := range cs {
+			if core.IsNil(g.Info, vc.Expr) {
+				continue
+			}
+			out = append(out, storeV{vc.V, st.Stmt, st.Index, vc.Expr})
+		}
+	}
+	return out
+}
+
+// liveDefs computes, for every value of the byte (or small integer) the
+// environment explores, which of the given definitions of a variable is the
+// one whose value is seen at vertex `at`: the graph is explored from starts
+// with branches decided by that value, and the last definition passed before
+// `at` is recorded.
+func liveDefs(env *core.ByteEnv, g *core.Graph, starts []*core.V, at *core.V, defs []*core.V) [256]map[*core.V]bool {
+	idx := map[*core.V]int{}
+	for i, d := range defs {
+		idx[d] = i
+	}
+	traces := env.Traces(g, starts, func(v *core.V, _ *core.ByteState) string {
+		if i, ok := idx[v]; ok {
+			return "D" + strconv.Itoa(i)
+		}
+		return ""
+	}, func(v *core.V) bool { return v == at }, 12)
+	var out [256]map[*core.V]bool
+	for b := 0; b < 256; b++ {
+		out[b] = map[*core.V]bool{}
+		for t := range traces[b] {
+			items := strings.Split(t, ",")
+			last := items[len(items)-1]
+			if strings.HasPrefix(last, "D") {
+				if i, err := strconv.Atoi(last[1:]); err == nil {
+					out[b][defs[i]] = true
+				}
+			}
+		}
+	}
+	return out
 }
